@@ -454,7 +454,9 @@ inline Diff compareNamed(const NamedLP& E, const NamedLP& R, bool tol, double* m
          Ep = &Ered;
       }
    }
-   return compareNamedImpl(*Ep, R, tol, maxRel);
+   Diff d = compareNamedImpl(*Ep, R, tol, maxRel);
+   if(Ep != &E) d.exactEqual = false;      // a (numerically zero) column is missing: not the identical LP
+   return d;
 }
 inline Diff compareNamedImpl(const NamedLP& E, const NamedLP& R, bool tol, double* maxRel)
 {
